@@ -150,6 +150,20 @@ Definition sentinel_remote (r : remote) : bool :=
 (* ... then: if w.internal { return }; if the transport has Internal(), take what it says *)
 Definition writer_internal (r : remote) : bool :=
   if sentinel_remote r then true else match r_says r with Some b => b | None => false end.
+(* internal/mock.NewWriter (the DoH / DoH3 writer): the same two-arm rule with its own copy of the
+   sentinel (octets read from the source) *)
+Definition mock_sentinel_v4 : N :=
+  ((mock_sentinel_o0 * 256 + mock_sentinel_o1) * 256 + mock_sentinel_o2) * 256 + mock_sentinel_o3.
+Definition transport_says (r : remote) : bool :=
+  match r_kind r with
+  | KUdp | KTcp =>
+      (r_port r =? 0)%Z &&
+      match r_ip r with
+      | None => false
+      | Some a => if a_is4 a then a_val a =? mock_sentinel_v4 else a_val a =? mapped_prefix + mock_sentinel_v4
+      end
+  | KOther => false
+  end.
 (* the writer Queryer.Query installs for a resolver-internal sub-query (middleware.BufferWriter):
    bufferRemoteAddr octets / port and Internal() read from the source *)
 Definition buffer_remote_v4 : N := ((buffer_o0 * 256 + buffer_o1) * 256 + buffer_o2) * 256 + buffer_o3.
